@@ -698,6 +698,7 @@ type PropertyExpressionVisitor struct {
 	BaseVisitor
 
 	PropertyLookup *cypher.PropertyLookup
+	hasKey         bool
 }
 
 func (s *PropertyExpressionVisitor) EnterOC_Atom(ctx *parser.OC_AtomContext) {
@@ -713,5 +714,15 @@ func (s *PropertyExpressionVisitor) EnterOC_PropertyKeyName(ctx *parser.OC_Prope
 }
 
 func (s *PropertyExpressionVisitor) ExitOC_PropertyKeyName(ctx *parser.OC_PropertyKeyNameContext) {
-	s.PropertyLookup.SetSymbol(extractPropertyKeyName(s.ctx, ctx))
+	keyName := extractPropertyKeyName(s.ctx, ctx)
+
+	if s.hasKey {
+		// A further lookup, as in n.a.b, applies to the value of the lookups read so far
+		s.PropertyLookup = &cypher.PropertyLookup{
+			Atom: s.PropertyLookup,
+		}
+	}
+
+	s.PropertyLookup.SetSymbol(keyName)
+	s.hasKey = true
 }
